@@ -42,3 +42,5 @@ for _l, _t in ((1, "quick"), (16, "thorough"), (128, "quick")):
       "to_bytes = version 1, tag, uLEB(actor length), actor bytes, uLEB(counter), move tag", tier=_t, timeout=600)
 H("G-CURSORENC", "cursor_display_format", "C19", "counter 0..=9, one-byte actor of ANY value, both move modes; unwind 8 (tinyvec default loop 18)",
   "Display = ['-' iff Before] counter '@' lowercase hex of the actor", unwindset=UW_TINYVEC, timeout=600)
+H("G-EXID", "exid_identity_ignores_hint", "C19 C30", "two ids: ANY u64 counters, one-byte actors of ANY value, ANY usize hints; unwind 6 (tinyvec default loop 18)",
+  "== <=> same counter and actor (the replica-local hint is ignored); Ord = (counter, actor) and agrees with ==; Root least", unwindset=UW_TINYVEC + [(r"^memcmp\.", 4)], timeout=600)
